@@ -28,6 +28,10 @@ def u32v4Src (ip : BitVec 32) (n : Nat) : Key :=
 def u32v4Dst (ip : BitVec 32) (n : Nat) : Key :=
   { off := Gen.u32DstOff4, mask := mask32 n, val := ip &&& mask32 n }
 
+/-- `redirectRule.isMatch` on a filter found installed for another CIDR (same link, protocol and actions): it is kept as the
+one implementing `ip/n` exactly when its key is the key `ip/n` would get -/
+def keepsInstalled (ip : BitVec 32) (n : Nat) (ip' : BitVec 32) (n' : Nat) : Bool := decide (u32v4Dst ip' n' = u32v4Dst ip n)
+
 /-- IPv6 address as four big-endian words, most significant first -/
 abbrev Addr6 := List (BitVec 32)
 
